@@ -318,8 +318,13 @@ class CallModelsMixin:
         a0 = pos[0] if pos else None
         self.may_raise("ValueError", "TypeError", node=node)
         if head == "math":
-            if name in ("comb", "factorial", "gcd", "lcm", "isqrt", "floor", "ceil", "trunc"):
+            if name in ("comb", "factorial", "gcd", "lcm", "isqrt", "floor", "ceil", "trunc", "perm"):
                 return mk_int().with_(dep=d, mdep=m)
+            if name == "prod" and a0 is not None:
+                # the product of what it is given: integers stay integers, Fractions stay Fractions
+                ks = scal_kind(a0) or frozenset({"I"})
+                if "F" not in ks:
+                    return Val(ty={"int"} if ks <= {"I", "Z"} else {"number"}, kind=ks, dep=d, mdep=m)
             if name in ("isfinite", "isnan", "isclose", "isinf"):
                 return mk_bool().with_(dep=d)
             return Val(ty={"float"}, kind={"F"}, fsrc=self.new_float(node, f"math.{name}(...)"), dep=d, mdep=m)
